@@ -428,6 +428,8 @@ pub struct Obs {
     pub echo_arrivals: Vec<(Ms, u64)>,
     /// every emission of the client: (offset in its byte stream, length, time emitted, arrival of the last byte)
     pub sb_frames: Vec<(usize, usize, Ms, Ms)>,
+    /// for each entry of `packets`: when the first byte of its frame was accepted by the transport
+    pub packet_started: Vec<Ms>,
 }
 
 impl Obs {
@@ -522,6 +524,9 @@ struct Shared {
     phase: Phase,
     inbuf: Vec<u8>,
     packets: Vec<(Ms, Pkt)>,
+    /// time at which the first byte of each decoded packet's frame was accepted by the transport
+    packet_started: Vec<Ms>,
+    frame_started: Option<Ms>,
     garbled: Option<String>,
     token: Option<Vec<u8>>,
     server_key: Option<Vec<u8>>,
@@ -752,14 +757,19 @@ impl Shared {
         if self.garbled.is_some() {
             return;
         }
+        if self.inbuf.is_empty() {
+            self.frame_started = Some(now);
+        }
         self.inbuf.extend_from_slice(&plain);
         let (frames, used, err) = codec::split_frames(&self.inbuf);
         for (id, body) in frames {
             let pkt = codec::decode_clientbound(self.phase, id, &body);
             self.on_packet(&pkt, now);
             self.packets.push((now, pkt));
+            self.packet_started.push(self.frame_started.take().unwrap_or(now));
         }
         self.inbuf.drain(..used);
+        self.frame_started = if self.inbuf.is_empty() { None } else { Some(self.frame_started.unwrap_or(now)) };
         if let Some(e) = err {
             self.garbled = Some(format!("{e:?} at undecodable bytes {}", common::hex(&self.inbuf[..self.inbuf.len().min(24)])));
         }
@@ -1220,6 +1230,8 @@ pub fn run(case: &Case) -> Obs {
         phase: Phase::Handshake,
         inbuf: vec![],
         packets: vec![],
+        packet_started: vec![],
+        frame_started: None,
         garbled: None,
         token: None,
         server_key: None,
@@ -1308,6 +1320,7 @@ pub fn run(case: &Case) -> Obs {
         echo_log: sh.echo_log.clone(),
         echo_arrivals: sh.echo_arrivals.clone(),
         sb_frames: sh.sb_frames.clone(),
+        packet_started: sh.packet_started.clone(),
     }
 }
 
